@@ -164,4 +164,43 @@ def h5WriteFull (sentinel : String) (kvs : List (Key × Tree)) : Except Err Kids
     | some e' => .error e'
     | none => .ok f
 
+/-- the full HDF5 round trip at dictionary level: write (values converted by numpy/h5py, names linked), then
+read groups as dicts and datasets as stored values with the sentinel decoded -/
+def h5RoundTripFull (sentinel : String) (kvs : List (Key × Tree)) : Except Err Tree :=
+  match h5WriteFull sentinel kvs with
+  | .ok f => .ok (.dict (h5ReadKids sentinel f))
+  | .error e => .error e
+
+mutual
+/-- what the reader sees in the file, leaf values in their canonical read-back form (tokens) -/
+def h5ReadToks (sentinel : String) : H5 → Except Err (List String)
+  | .ds v => h5LeafToks sentinel v
+  | .grp kids => do
+    let body ← h5ReadToksKids sentinel kids
+    pure (["D", toString kids.length] ++ body)
+def h5ReadToksKids (sentinel : String) : List (String × H5) → Except Err (List String)
+  | [] => .ok []
+  | (k, h) :: rest => do
+    let a ← h5ReadToks sentinel h
+    let b ← h5ReadToksKids sentinel rest
+    pure (("ks:" ++ cps k) :: a ++ b)
+end
+
+/-- the stored form of a leaf is something numpy/h5py can write (and read back) -/
+def leafOk (sentinel : String) (v : Tree) : Bool :=
+  match h5LeafToks sentinel (h5Encode sentinel v) with
+  | .ok _ => true
+  | .error _ => false
+
+mutual
+/-- every leaf of the nested dictionary is writable: no arbitrary object, no None/ragged rows inside a list,
+no mixed str/number list, … (the assumed numpy/h5py table `h5LeafToks`) -/
+def LeavesOk (sentinel : String) : Tree → Prop
+  | .dict kvs => LeavesOkKvs sentinel kvs
+  | v => leafOk sentinel v = true
+def LeavesOkKvs (sentinel : String) : List (Key × Tree) → Prop
+  | [] => True
+  | (_, v) :: rest => LeavesOk sentinel v ∧ LeavesOkKvs sentinel rest
+end
+
 end NessaiVerif.Encode
